@@ -42,7 +42,10 @@ def answerProj (fs : List (String × String)) : String :=
       -- tolerances are RELATIVE to the magnitudes of the case (no absolute floor: data in tiny units are judged as strictly)
       let nz (x : Rat) : Rat := if x == 0 then 1 else x
       let one (x : Rat) : Rat := 1 + x
-      let scale := nz (if xmax < qmax then qmax else xmax) * nz pmax * ((D : Rat) + 1)
+      --   Pᵀ(x − mean) is formed from the CENTRED vector: its rounding error is relative to the spread |x − mean|, not to |x|
+      let spreadX := maxAbsM (fun (i : Fin N) (a : Fin D) => X.get i a - mu.get a)
+      let spreadQ := maxAbsM (fun (i : Fin nq) (a : Fin D) => q.get i a - mu.get a)
+      let scale := nz (if spreadX < spreadQ then spreadQ else spreadX) * nz pmax * ((D : Rat) + 1)
       -- 1. projection(x_i) = row i of the embedding: the same expression over the same doubles
       let ctrain := cmpMat T.get Y.get (εtight * scale)
       -- 2. the stored mean is the mean of the training samples
